@@ -9,7 +9,7 @@ from .. import common
 from ..common import sig_key
 
 LEVEL = "exploration"
-RULE = "Real executions of autograd.test_util.check_grads on user primitives (scalar, vector, matrix, broadcasting binary, complex, tuple-of-arrays arguments) whose VJP/JVP rules are correct (must pass: 0 rejections tolerated) or carry one planted defect from {factor 1+-1e-2/1e-1/1, sign, reversal/transpose, missing reduction over a broadcast axis, one entry off by 10%/100%, dropped conjugate, leaf swap, rule not traceable (order-2 defect)} in the VJP, the JVP or the rule's own derivative; requested modes rev/fwd/both and orders 1-2; every trial reseeds NumPy's global generator so the checker's own projections vary. Verdict per defect setting: one-sided exact binomial test of p>=0.99 at alpha=1e-9. Also check_grads on correct built-in elementwise/reduction primitives at regular points. Non-trivial iff >= 1 trial ran; distinct = distinct (argument kind, defect, where, modes, order) settings."
+RULE = "Real executions of autograd.test_util.check_grads on user primitives (scalar, vector, matrix, broadcasting binary, complex vector, complex 0-d scalar, real-valued non-holomorphic |z|^2 of a complex scalar/vector, tuple-of-arrays arguments) whose VJP/JVP rules are correct (must pass: 0 rejections tolerated) or carry one planted defect from {factor 1+-1e-2/1e-1/1, sign, reversal/transpose, missing reduction over a broadcast axis, one entry off by 10%/100%, dropped conjugate, leaf swap, one NaN / inf entry, rule not traceable (order-2 defect)} in the VJP, the JVP or the rule's own derivative; requested modes rev/fwd/both and orders 1-2; every trial reseeds NumPy's global generator so the checker's own projections vary. Verdict per defect setting: one-sided exact binomial test of p>=0.99 at alpha=1e-9. combo_check over 3 positional x 2 keyword candidates with the defect active for exactly one combination (each combination in turn) plus a trace of which combinations the primal was evaluated on (all must be). Also check_grads on correct built-in elementwise/reduction primitives at regular points. Non-trivial iff >= 1 trial ran; distinct = distinct (argument kind, defect, where, modes, order) settings."
 ASSUMPTIONS = ["statistical statement: alpha=1e-9 per setting; 'small relative error' fixed at >= 1e-2 (1e-3 is measured and reported only)", "points are well scaled: |values|,|derivatives| <= 10"]
 
 
@@ -58,6 +58,13 @@ def apply_defect(val, defect, ctx):
         return val * (1.0 + m)
     if defect == "drop_conj":
         return anp.conj(val)
+    if defect in ("nan_entry", "inf_entry"):
+        bad = onp.nan if defect == "nan_entry" else onp.inf
+        m = onp.ones(onp.shape(val))
+        if m.ndim == 0:
+            return val * bad
+        m.ravel()[ctx.get("entry", 0) % max(1, m.size)] = bad
+        return val * m
     raise ValueError(defect)
 
 
@@ -119,6 +126,29 @@ def build(kind, defect, where, rng):
         defvjp(P, lambda ans, z: lambda g: apply_defect(g * (2 * raw_if(dv, z) * c), dv, ctx))
         defjvp(P, lambda g, ans, z: apply_defect(g * 2 * raw_if(dj, z) * c, dj if dj != "drop_conj" else "drop_conj", ctx))
         return P, (rng.uniform(0.3, 1.2, size=3) + 1j * rng.uniform(0.3, 1.2, size=3),)
+    if kind == "cscalar":
+        # complex 0-d argument (Python complex), holomorphic
+        c = 0.7 - 0.4j
+        P = primitive(lambda z: z * z * c)
+        defvjp(P, lambda ans, z: lambda g: apply_defect(g * (2 * raw_if(dv, z) * c), dv, ctx))
+        defjvp(P, lambda g, ans, z: apply_defect(g * 2 * raw_if(dj, z) * c, dj, ctx))
+        return P, (complex(rng.uniform(0.3, 1.2), rng.uniform(0.3, 1.2)),)
+    if kind in ("cabs2_scalar", "cabs2_vector"):
+        # real-valued, non-holomorphic |z|^2: gradient (documented convention) g*2*conj(z); a dropped conjugate
+        # changes the imaginary part of the gradient only
+        P = primitive(lambda z: onp.real(z * onp.conj(z)))
+        defvjp(P, lambda ans, z: lambda g: apply_defect(g * 2 * anp.conj(raw_if(dv, z)), dv, ctx))
+
+        def jz(g, ans, z):
+            zz = raw_if(dj, z)
+            if dj == "drop_conj":
+                return 2 * anp.real(zz * g)
+            return apply_defect(2 * anp.real(anp.conj(zz) * g), dj, ctx)
+
+        defjvp(P, jz)
+        if kind == "cabs2_scalar":
+            return P, (complex(rng.uniform(0.3, 1.2), rng.uniform(0.3, 1.2)),)
+        return P, (rng.uniform(0.3, 1.2, size=3) + 1j * rng.uniform(0.3, 1.2, size=3),)
     if kind == "container":
         # f((a, b)) = a*sin(b) with a, b of the same shape: swapping the leaves keeps the structure
         P = primitive(lambda t: t[0] * onp.sin(t[1]))
@@ -146,9 +176,40 @@ def build(kind, defect, where, rng):
     raise ValueError(kind)
 
 
+def build_combo(st, rng):
+    """P(x, scale=1.0) = scale*sin(x) checked through combo_check over three positional candidates of different
+    shapes (x two keyword candidates); the planted defect is active for one combination only. The primitive records
+    which combinations its primal was evaluated on."""
+    import autograd.numpy as anp
+    from autograd.extend import defjvp, defvjp, primitive
+    from autograd.test_util import combo_check
+
+    cands = [float(rng.uniform(0.5, 1.5)), rng.uniform(0.3, 1.2, size=3), rng.uniform(0.3, 1.2, size=(2, 2))]
+    scales = [1.0, 2.0]
+    idx_of = lambda x: {(): 0, (3,): 1, (2, 2): 2}[onp.shape(x)]
+    trig = tuple(st["trigger"]) if st["trigger"] is not None else None
+    seen = set()
+
+    def raw(x, scale=1.0):
+        seen.add((idx_of(x), scales.index(scale)))
+        return scale * onp.sin(x)
+
+    P = primitive(raw)
+    fac = lambda x, scale, on: (1.0 + float(st["defect"][7:])) if (on and trig == (idx_of(x), scales.index(scale))) else 1.0
+    defvjp(P, lambda ans, x, scale=1.0: lambda g: g * scale * anp.cos(x) * fac(x, scale, st["where"] == "vjp"))
+    defjvp(P, lambda g, ans, x, scale=1.0: g * scale * anp.cos(x) * fac(x, scale, st["where"] == "jvp"))
+    P.seen = seen
+    P.expected = {(i, j) for i in range(3) for j in ((0, 1) if st["kw"] else (0,))}
+    if st["kw"]:
+        thunk = lambda: combo_check(P, [0], modes=st["modes"], order=st["order"])(cands, scale=scales)
+    else:
+        thunk = lambda: combo_check(P, [0], modes=st["modes"], order=st["order"])(cands)
+    return P, (thunk,)
+
+
 def settings(tier):
     out = []
-    kinds = ["scalar", "vector", "matrix", "bcast", "complex", "container"]
+    kinds = ["scalar", "vector", "matrix", "bcast", "complex", "container", "cscalar", "cabs2_scalar", "cabs2_vector"]
     for kind in kinds:
         out.append({"kind": kind, "defect": None, "where": None, "modes": ["fwd", "rev"], "order": 2})
         out.append({"kind": kind, "defect": None, "where": None, "modes": ["rev"], "order": 1})
@@ -160,11 +221,12 @@ def settings(tier):
             defects.append("transpose")
         if kind == "bcast":
             defects.append("missing_reduction")
-        if kind == "complex":
+        if kind in ("complex", "cscalar", "cabs2_scalar", "cabs2_vector"):
             defects.append("drop_conj")
+        defects += ["nan_entry", "inf_entry"]
         if kind == "container":
             defects.append("leaf_swap")
-        if kind == "scalar":
+        if kind in ("scalar", "cscalar", "cabs2_scalar"):
             defects = [d for d in defects if not d.startswith("entry")]
         for d in defects:
             for where in ("vjp", "jvp"):
@@ -173,12 +235,19 @@ def settings(tier):
                 if d in ("factor:0.1", "sign", "entry:1.0"):
                     out.append({"kind": kind, "defect": d, "where": where, "modes": ["fwd", "rev"], "order": 2})
         # order-2 defects: first-order values right, rule not traceable
-        if kind not in ("container", "bcast"):
+        if kind not in ("container", "bcast", "cabs2_scalar", "cabs2_vector"):
             for where in ("vjp", "jvp"):
                 m = "rev" if where == "vjp" else "fwd"
                 out.append({"kind": kind, "defect": "order2_untraceable", "where": where, "modes": [m], "order": 2})
         # informational: the suite's own 1e-3 factor
         out.append({"kind": kind, "defect": "factor:0.001", "where": "vjp", "modes": ["rev"], "order": 1, "informational": True})
+    # combo_check: the defect is active for exactly one (positional candidate, keyword candidate) combination
+    for kw in (True, False):
+        out.append({"kind": "combo", "defect": None, "where": None, "modes": ["fwd", "rev"], "order": 2, "kw": kw, "trigger": None})
+        for i in range(3):
+            for j in ((0, 1) if kw else (0,)):
+                for where in ("vjp", "jvp"):
+                    out.append({"kind": "combo", "defect": "factor:0.1", "where": where, "modes": ["rev" if where == "vjp" else "fwd"], "order": 1, "kw": kw, "trigger": [i, j]})
     return out
 
 
@@ -187,6 +256,9 @@ def run_setting(res, st, n_trials, seed):
 
     name = "%s|%s|%s|%s|o%d" % (st["kind"], st["defect"], st["where"], "+".join(st["modes"]), st["order"])
     sig = {"engine": "checker", "kind": st["kind"], "defect": st["defect"], "where": st["where"], "modes": st["modes"], "order": st["order"]}
+    if st["kind"] == "combo":
+        sig.update(kw=st["kw"], trigger=st["trigger"])
+        name += "|kw=%s|trigger=%s" % (st["kw"], st["trigger"])
     case = {"kind": "setting", "setting": st, "n": n_trials, "seed": seed}
     rej = 0
     other = {}
@@ -195,7 +267,7 @@ def run_setting(res, st, n_trials, seed):
         rng = onp.random.Generator(onp.random.PCG64([seed, t, 71]))
         onp.random.seed(int(rng.integers(0, 2**31)))
         try:
-            fun, args = build(st["kind"], st["defect"], st["where"], rng)
+            fun, args = build_combo(st, rng) if st["kind"] == "combo" else build(st["kind"], st["defect"], st["where"], rng)
         except Exception:
             res["not_judged"]["harness_error"] = res["not_judged"].get("harness_error", 0) + 1
             res["sets"].setdefault("harness_errors", set()).add(traceback.format_exc()[-300:])
@@ -206,7 +278,17 @@ def run_setting(res, st, n_trials, seed):
             with warnings.catch_warnings():
                 warnings.simplefilter("ignore")
                 argn = tuple(range(len(args))) if len(args) > 1 else 0
-                if len(args) > 1:
+                if st["kind"] == "combo":
+                    fun.seen.clear()
+                    try:
+                        args[0]()
+                    finally:
+                        missing = sorted(fun.expected - fun.seen)
+                        if missing and (st["defect"] is None):
+                            s = dict(sig, symptom="combo_not_evaluated")
+                            res["violations"].append({"sig": s, "case": case, "detail": "combo_check returned without evaluating the function on the combinations (candidate index, keyword) %s" % (missing,)})
+                        res["counters"]["combo_combinations_seen"] = res["counters"].get("combo_combinations_seen", 0) + len(fun.seen)
+                elif len(args) > 1:
                     # differentiate w.r.t. the first argument (the one carrying the defect)
                     check_grads(fun, 0, modes=st["modes"], order=st["order"])(*args)
                 else:
